@@ -10,7 +10,7 @@ PROPS["C06"] = prop(
 )
 PROPS["C07"] = prop(
     "exploration",
-    "same generator as C06; transition validator over consecutive store snapshots attributing every changed (topic,user) row to the acting request and its actor's prior effective mode; plus P2P/me/fnd/sys membership and subscriber-limit invariants; session 3: P2P first grant = the peer's default for the executing level (extra.authlevel), fnd/me of another user by literal name, removal by an actor without effective A; after seeded round 6: strangers naming a P2P topic by its full name, P2P participants whose account defaults differ, root's first subscription to a foreign group",
+    "same generator as C06; transition validator over consecutive store snapshots attributing every changed (topic,user) row to the acting request and its actor's prior effective mode; plus P2P/me/fnd/sys membership and subscriber-limit invariants; session 3: P2P first grant = the peer's default for the executing level (extra.authlevel), fnd/me of another user by literal name, removal by an actor without effective A; after seeded round 6: strangers naming a P2P topic by its full name, P2P participants whose account defaults differ, root's first subscription to a foreign group; round 7: a member offered ownership who does not accept it cannot raise the own grant",
     "non-trivial = program with >=1 authorised and >=1 refused permission change, or an unsubscribe followed by a re-subscription; distinct = FNV-64 of the program",
     "Every change of a given/want column must be explained by the statement's rules for the actor who sent the request. Sampled.",
     "Trusts verifmem; root-on-behalf-of actions are attributed to the impersonated user as the server does.",
